@@ -5,6 +5,7 @@ import (
 	"fmt"
 	"os"
 	"os/exec"
+	"runtime"
 	"strconv"
 	"strings"
 	"sync"
@@ -199,7 +200,7 @@ func runUciScript(kind string, seed int64, steps []string) string {
 				}
 				select {
 				case s.in <- strings.TrimPrefix(strings.TrimPrefix(st, ">"), " "):
-				case <-time.After(3 * time.Second):
+				case <-time.After(3 * time.Second * loadScale()):
 					trace = append(trace, "INPUT-BLOCKED")
 					continue
 				}
@@ -216,8 +217,8 @@ func runUciScript(kind string, seed int64, steps []string) string {
 			if !inputClosed {
 				select {
 				case s.in <- "isready":
-					ok = s.waitFor(func(l []string) bool { return containsPrefix(l, "readyok") }, 3*time.Second)
-				case <-time.After(3 * time.Second):
+					ok = s.waitFor(func(l []string) bool { return containsPrefix(l, "readyok") }, 3*time.Second*loadScale())
+				case <-time.After(3 * time.Second * loadScale()):
 				}
 			}
 			if ok {
@@ -238,7 +239,7 @@ func runUciScript(kind string, seed int64, steps []string) string {
 			// answered = a bestmove has been printed since the latest go (possibly before this step)
 			if s.waitFor(func(l []string) bool {
 				return containsPrefix(l, "bestmove") || (s.goMark <= len(s.lines) && containsPrefix(s.lines[s.goMark:], "bestmove"))
-			}, time.Duration(ms)*time.Millisecond) {
+			}, time.Duration(ms)*time.Millisecond*loadScale()) {
 				emit("answered")
 			} else {
 				uciNoAnswer.Add(1)
@@ -248,6 +249,12 @@ func runUciScript(kind string, seed int64, steps []string) string {
 			us, _ := strconv.Atoi(strings.Fields(st)[1])
 			s.stall.Store(int64(us))
 			trace = append(trace, "reader")
+		case strings.HasPrefix(st, "lenient"): // for the monitor only: answers up to `lenient off` are not attributed to a particular go
+			trace = append(trace, "lenient")
+		case strings.HasPrefix(st, "settle"): // sleep, longer on an oversubscribed machine: lets answers already under way arrive
+			ms, _ := strconv.Atoi(strings.Fields(st)[1])
+			time.Sleep(time.Duration(ms) * time.Millisecond * loadScale())
+			emit("settled")
 		case strings.HasPrefix(st, "sleep"):
 			ms, _ := strconv.Atoi(strings.Fields(st)[1])
 			time.Sleep(time.Duration(ms) * time.Millisecond)
@@ -273,7 +280,7 @@ func runUciScript(kind string, seed int64, steps []string) string {
 			select {
 			case <-p:
 				emit("parked")
-			case <-time.After(5 * time.Second):
+			case <-time.After(5 * time.Second * loadScale()):
 				emit("NOT-PARKED")
 			}
 		case st == "release":
@@ -296,7 +303,7 @@ func runUciScript(kind string, seed int64, steps []string) string {
 			case <-s.d.Closed():
 				time.Sleep(20 * time.Millisecond)
 				emit("driver-closed")
-			case <-time.After(3 * time.Second):
+			case <-time.After(3 * time.Second * loadScale()):
 				emit("DRIVER-NOT-CLOSED")
 			}
 		case st == "state":
@@ -367,11 +374,37 @@ var childOps = map[string]bool{}
 // uciHangs counts child scripts killed for not finishing; after three the limit drops (the run is failing anyway).
 var uciHangs atomic.Int64
 
+// loadScale stretches wall-clock limits when the machine is oversubscribed (other checks running beside this one): the
+// one-minute load average per CPU, doubled, between 1 and 8. A limit is there to bound the cost of a real hang, not to
+// judge speed, so erring on the long side is right.
+func loadScale() time.Duration {
+	data, err := os.ReadFile("/proc/loadavg")
+	if err != nil {
+		return 1
+	}
+	f := strings.Fields(string(data))
+	if len(f) == 0 {
+		return 1
+	}
+	load, err := strconv.ParseFloat(f[0], 64)
+	if err != nil {
+		return 1
+	}
+	k := int(2 * load / float64(runtime.NumCPU()))
+	if k < 1 {
+		k = 1
+	}
+	if k > 8 {
+		k = 8
+	}
+	return time.Duration(k)
+}
+
 func childLimit() time.Duration {
 	if uciHangs.Load() >= 3 {
-		return 15 * time.Second
+		return 15 * time.Second * loadScale()
 	}
-	return 60 * time.Second
+	return 90 * time.Second * loadScale()
 }
 
 // uciNoAnswer counts expired bestmove waits of this harness run (in-process scripts and child scripts).
